@@ -19,3 +19,17 @@ mod common;
 pub use crate::config::{Committee, Parameters};
 pub use crate::consensus::Consensus;
 pub use crate::messages::{Block, QC, TC};
+
+#[cfg(feature = "hotstuff_verif")]
+pub mod verif {
+    pub use crate::aggregator::Aggregator;
+    pub use crate::consensus::{ConsensusMessage, Round};
+    pub use crate::core::{Core, VerifEvent};
+    pub use crate::error::{ConsensusError, ConsensusResult};
+    pub use crate::helper::Helper;
+    pub use crate::leader::LeaderElector;
+    pub use crate::mempool::MempoolDriver;
+    pub use crate::messages::{Block, Timeout, Vote, QC, TC};
+    pub use crate::proposer::{Proposer, ProposerMessage};
+    pub use crate::synchronizer::Synchronizer;
+}
